@@ -377,3 +377,18 @@ def format_idents_of(fn):
                 pat = args[0][0]["lit"].get("value")
             res.append({"pattern": pat, "args": args[1:], "line": fn.file.line(idt["span"][0]), "span": idt["span"], "fn": fn})
     return res
+
+
+def templates_both(fn):
+    """the templates of a function in every reading: as written, with hoisted sub-templates inlined, and the token
+    streams built programmatically - a rule that looks for a template finds it however it is assembled"""
+    plain = templates_of(fn)
+    comp = templates_of(fn, composed=True)
+    seen = {ir_text(t.ir) for t in plain}
+    out = list(plain)
+    for t in comp:
+        tx_ = ir_text(t.ir)
+        if tx_ not in seen:
+            seen.add(tx_)
+            out.append(t)
+    return out
